@@ -249,6 +249,36 @@ class World:
         c.task = self.loop.create_task(handler())
         return c
 
+    def connect_via_resource(self, name, addr="1.1.1.1", origin=""):
+        """like connect(), but through the websocket resource of the web application (NostrAPI.on_websocket: origin check, ACCEPT rate
+        limit, ws.accept(), then start_client) - one resource instance per World, as in create_app.  ws.accept() is a job the explorer
+        completes, so that the handshakes of several connections can overlap."""
+        import types
+
+        c = Conn(self, name, addr)
+        self.conns[name] = c
+        if getattr(self, "_api", None) is None:
+            self._api = self.ns.web.NostrAPI(self.storage, rate_limiter=self.rate_limiter)
+        loop = self.loop
+
+        async def accept(*a, **kw):
+            await loop.hop("accept", lambda: None, label=name)
+
+        req = types.SimpleNamespace(remote_addr=addr, get_header=lambda h, default=None: origin if h.lower() == "origin" else default)
+        ws = types.SimpleNamespace(accept=accept, send_text=c.send, receive_text=c.recv, close=c.close)
+
+        async def handler():
+            try:
+                return await self._api.on_websocket(req, ws)
+            except BaseException as e:
+                c.handler_exception = e
+                raise
+            finally:
+                c.transcript.append(("done", self.tick(), None))
+
+        c.task = self.loop.create_task(handler())
+        return c
+
     def run(self, horizon=50.0):
         self.loop.drain(horizon=horizon)
 
